@@ -129,10 +129,17 @@ class Check:
         known_hit = []
         for sig, vs in by_sig.items():
             k = next((k for k in known if k["signature"] == sig), None)
-            if k is not None and "fingerprint" in k:
-                fps = {(v["replay"] or {}).get("fingerprint") for v in vs}
-                if fps != {k["fingerprint"]}:
-                    k = None
+            if k is not None and k.get("fingerprints"):
+                # the finding is "the same" only while the failing behaviour on the canonical instances is unchanged
+                fps = k["fingerprints"]
+                changed = [v for v in vs if (v["replay"] or {}).get("fingerprint_label") in fps
+                           and fps[(v["replay"] or {}).get("fingerprint_label")] != (v["replay"] or {}).get("fingerprint")]
+                seen_labels = {(v["replay"] or {}).get("fingerprint_label") for v in vs}
+                if changed:
+                    new.append((sig + "|behaviour-changed", changed))
+                    vs = [v for v in vs if v not in changed]
+                    if not vs:
+                        continue
             if k is not None:
                 known_hit.append((k, vs))
             else:
